@@ -1474,6 +1474,8 @@ def _is_arr(x):
 def array(obj, dtype=None, copy=True, owner="local", **kw):
     from . import sympd
     dt = None if dtype is None else globals()["dtype"](dtype)
+    if hasattr(obj, "__sym_array__"):
+        obj = obj.__sym_array__()
     if isinstance(obj, ndarray):
         d = obj._data_arr() if obj._is_masked else obj
         r = d.copy() if dt is None else d.astype(dt)
@@ -1526,6 +1528,8 @@ def array(obj, dtype=None, copy=True, owner="local", **kw):
 
 
 def asarray(obj, dtype=None):
+    if hasattr(obj, "__sym_array__"):
+        obj = obj.__sym_array__().copy()
     if isinstance(obj, ndarray) and not obj._is_masked:
         if dtype is None or globals()["dtype"](dtype) == obj._dt:
             return obj
